@@ -26,8 +26,11 @@ def run_one(name):
         demo = os.path.join(d, 'demo.py')
         if os.path.exists(demo):
             env = dict(os.environ, VP_REPO=s)
-            dm = subprocess.run(['/venv/bin/python', demo], cwd=s, env=env, capture_output=True, text=True, timeout=300)
-            res['demo_exit_with_patch'] = dm.returncode
+            try:
+                dm = subprocess.run(['/venv/bin/python', demo], cwd=s, env=env, capture_output=True, text=True, timeout=600)
+                res['demo_exit_with_patch'] = dm.returncode
+            except subprocess.TimeoutExpired:
+                res['demo_exit_with_patch'] = 'timeout (machine busy)'
         for chk in [prop] + EXTRA.get(prop, []):
             if chk != prop and res['checks'].get(prop, {}).get('exit') == 1 and not os.environ.get('RESEED_ALL_NEIGHBOURS'):
                 break      # neighbours are only consulted when the property's own check is silent
